@@ -63,6 +63,7 @@ package hook
 //@   requires forall(a, 0, len(hm.hooksInOrder[bindingType]), hm.hooksInOrder[bindingType][a] != nil && hm.hooksInOrder[bindingType][a].Config != nil)
 //@   requires forall(a, 0, len(hm.hooksInOrder[bindingType]), forall(b, 0, len(hm.hooksInOrder[bindingType]), a < b ==> hm.hooksInOrder[bindingType][a].Name < hm.hooksInOrder[bindingType][b].Name))
 //@   modifies elems(hm.hooksInOrder[bindingType])
+//@   ensures [no-error-unless-startup] bindingType != htypes.OnStartup ==> result1 == nil
 //@   ensures [names]         result1 == nil && has(hm.hooksInOrder, bindingType) ==> len(result0) == len(hm.hooksInOrder[bindingType]) && forall(a, 0, len(result0), result0[a] == hm.hooksInOrder[bindingType][a].Name)
 //@   ensures [startup-order] result1 == nil && bindingType == htypes.OnStartup ==> forall(a, 0, len(hm.hooksInOrder[bindingType]), forall(b, 0, len(hm.hooksInOrder[bindingType]), a < b ==>
 //@        hm.hooksInOrder[bindingType][a].Config.OnStartup.Order < hm.hooksInOrder[bindingType][b].Config.OnStartup.Order
@@ -272,3 +273,36 @@ package hook
 //@     invariant forall(a, 0, len(hm.hooksInOrder["kubernetesMutating"]), forall(b, 0, len(hm.hooksInOrder["kubernetesMutating"]), a < b ==> hm.hooksInOrder["kubernetesMutating"][a].Name < hm.hooksInOrder["kubernetesMutating"][b].Name))
 //@   loop 2
 //@     invariant nAdmCreate >= old(nAdmCreate) && forall(k, old(nAdmCreate), nAdmCreate, admCreateHook[k] != nil && accepts(admCreateHook[k].HookController, event))
+
+// ---- C11: a tick is handed to every hook whose schedule controller accepts the crontab ----------
+// the controller of the hook of that name (uninterpreted; defined by GetHook's trusted contract)
+//@ specfn ctrlOf(hm *Manager, name string) *controller.HookController
+// whether a hook's schedule controller has an enabled binding with that crontab (uninterpreted;
+// tied to the code by the trusted contract of CanHandleScheduleEvent)
+//@ specfn acceptsCron(hc *controller.HookController, crontab string) bool
+// number of accepting hooks among hooks[0..i)
+//@ specfn nCronAccept(hm *Manager, hooks []*Hook, crontab string, i int) int
+//@   axiom i <= 0 ==> result == 0
+//@   axiom i > 0 ==> result == nCronAccept(hm, hooks, crontab, i-1) + ite(acceptsCron(ctrlOf(hm, hooks[i-1].Name), crontab), 1, 0)
+//@ ghost nSchedHandled int
+//@ ghost schedHandledBy map[int]*controller.HookController
+//@ package github.com/flant/shell-operator/pkg/hook/controller
+//@ trusted func (*HookController).CanHandleScheduleEvent
+//@   modifies nothing
+//@   ensures result == hook.acceptsCron(hc, crontab)
+//@ trusted func (*HookController).HandleScheduleEvent
+//@   modifies hook.nSchedHandled, hook.schedHandledBy
+//@   ghostset hook.nSchedHandled := hook.nSchedHandled + 1
+//@   ghostset hook.schedHandledBy[hook.nSchedHandled] := hc
+//@ package github.com/flant/shell-operator/pkg/hook
+
+//@ func (*Manager).HandleScheduleEvent
+//@   prop C11
+//@   requires has(hm.hooksInOrder, "schedule")
+//@   requires forall(a, 0, len(hm.hooksInOrder["schedule"]), hm.hooksInOrder["schedule"][a] != nil && hm.hooksInOrder["schedule"][a].Config != nil)
+//@   requires forall(a, 0, len(hm.hooksInOrder["schedule"]), forall(b, 0, len(hm.hooksInOrder["schedule"]), a < b ==> hm.hooksInOrder["schedule"][a].Name < hm.hooksInOrder["schedule"][b].Name))
+//@   modifies nSchedHandled, schedHandledBy, allelems(*Hook)
+//@   ensures [every-accepting-hook-handles-the-tick] nSchedHandled == old(nSchedHandled) + nCronAccept(hm, hm.hooksInOrder["schedule"], crontab, len(hm.hooksInOrder["schedule"]))
+//@   loop 1
+//@     invariant 0 <= iter() && iter() <= len(schHooks) && len(schHooks) == len(hm.hooksInOrder["schedule"]) && forall(a, 0, len(schHooks), schHooks[a] == hm.hooksInOrder["schedule"][a].Name)
+//@     invariant nSchedHandled == old(nSchedHandled) + nCronAccept(hm, hm.hooksInOrder["schedule"], crontab, iter())
